@@ -821,14 +821,33 @@ def isa_contract():
         routed = z3.Not(GE_RAISES(fn))
         return z3.Or(routed, mime_hit), z3.If(routed, GE_MOD(fn), mod), z3.If(routed, GE_FN(fn), fnn)
 
+    def cache_inv(st):
+        """Maps with string keys whose values are extractors (a per-call cache): every entry is the router's answer for its
+        key -- the only string-keyed cache of extractors that keeps `attachment == file on its own` (an entry under any other
+        key, e.g. the declared MIME type, hands one attachment's extractor to another).  True when there is no such map."""
+        out = []
+        key = z3.String("key!cache")
+        for v in st.frame.env.values():
+            if isinstance(v, VRef) and st.heap.get(v.ref) is not None and st.obj(v.ref).kind == "amap":
+                d = st.obj(v.ref).data
+                if "present_s" not in d:
+                    continue
+                if d.get("comps") is None or d.get("shape") != 2:
+                    out.append(z3.ForAll([key], z3.Not(z3.Select(d["present_s"], key))))      # values of unknown shape: must stay empty
+                    continue
+                out.append(z3.ForAll([key], z3.Implies(z3.Select(d["present_s"], key), z3.And(
+                    z3.Not(GE_RAISES(key)), z3.Select(d["comps"][0], key) == GE_MOD(key), z3.Select(d["comps"][1], key) == GE_FN(key)))))
+        return z3.And(out + [z3.BoolVal(True)])
+
     def inv(lc):
         st = lc.st
+        cache = ("cache", cache_inv(st))
         disp = st.ghost.get("dispatch", ())
         if not disp:
-            return Conj([("dispatch", z3.BoolVal(True)), ("stream", z3.BoolVal(True))])
+            return Conj([("dispatch", z3.BoolVal(True)), ("stream", z3.BoolVal(True)), cache])
         att = lc.seq.elem(z3.simplify(lc.i - 1)).t
         fn, mt, data, flag = att_terms(att)
-        bad = Conj([("dispatch", z3.BoolVal(False)), ("stream", z3.BoolVal(False))])
+        bad = Conj([("dispatch", z3.BoolVal(False)), ("stream", z3.BoolVal(False)), cache])
         if len(disp) != 1:
             return bad
         (f, args, pos) = disp[0]
@@ -840,7 +859,7 @@ def isa_contract():
         after = st.ghost.get(("pos", args[0].t.get_id()))
         stream = [at_call[0] == 0 if at_call and at_call[0] is not None else z3.BoolVal(False),
                   after == 0 if after is not None else z3.BoolVal(False)]
-        return Conj([("dispatch", z3.And(goals)), ("stream", z3.And(stream))])
+        return Conj([("dispatch", z3.And(goals)), ("stream", z3.And(stream)), cache])
 
     def raised_by_extractor(c):
         return z3.BoolVal(c.exc is not None and "extractor call" in str(c.exc.attrs.get("site", "")))
